@@ -12,6 +12,7 @@ import (
 	"strings"
 
 	"golang.org/x/tools/go/packages"
+	"golang.org/x/tools/go/ssa"
 )
 
 const pkgFormat = "private/buf/bufformat"
@@ -464,41 +465,92 @@ func runC07(c *Ctx) {
 		c.Fail("ERR-SURFACE", "FormatBucket", token.NoPos, "not found")
 	} else {
 		seenFormat, seenPar := false, false
-		ast.Inspect(fb.Decl.Body, func(x ast.Node) bool {
-			ifs, ok := x.(*ast.IfStmt)
-			if !ok || ifs.Init == nil {
-				return true
-			}
-			as, ok := ifs.Init.(*ast.AssignStmt)
-			if !ok || len(as.Rhs) != 1 {
-				return true
-			}
-			call, ok := ast.Unparen(as.Rhs[0]).(*ast.CallExpr)
-			if !ok {
-				return true
-			}
-			fn := Callee(info, call)
-			if fn == nil {
-				return true
-			}
-			returnsErr := false
-			if obj, nonNil, ok := errNilTest(info, ifs.Cond); ok && nonNil && obj == identObj(info, as.Lhs[len(as.Lhs)-1]) {
-				for _, s := range ifs.Body.List {
-					if r, ok := s.(*ast.ReturnStmt); ok && len(r.Results) > 0 && identObj(info, r.Results[len(r.Results)-1]) == obj {
-						returnsErr = true
+		// decided on SSA over everything FormatBucket is made of (its closures, and package functions it calls or hands
+		// over as job functions): the error of FormatFileNode and of thread.Parallelize reaches a return of the function
+		// that made the call, and the failing edge of any test of it ends in a non-nil error return
+		if sfb := p.SSAFunc(fb.Obj); sfb != nil {
+			parts := map[*ssa.Function]bool{}
+			var add func(f *ssa.Function, depth int)
+			add = func(f *ssa.Function, depth int) {
+				if f == nil || parts[f] || f.Blocks == nil || f.Pkg == nil || f.Pkg.Pkg != pk.Types {
+					return
+				}
+				parts[f] = true
+				for _, a := range f.AnonFuncs {
+					add(a, depth)
+				}
+				if depth == 0 {
+					return
+				}
+				for _, b := range f.Blocks {
+					for _, ins := range b.Instrs {
+						for _, op := range ins.Operands(nil) {
+							if op != nil && *op != nil {
+								if g, ok := (*op).(*ssa.Function); ok {
+									add(g, depth-1)
+								}
+							}
+						}
 					}
 				}
 			}
-			switch fn.Name() {
-			case "FormatFileNode":
-				seenFormat = true
-				c.Ob("ERR-SURFACE", "FormatBucket/FormatFileNode-error-returned", ifs.Pos(), returnsErr, true, "a formatting error fails the job: %v", returnsErr)
-			case "Parallelize":
-				seenPar = true
-				c.Ob("ERR-SURFACE", "FormatBucket/Parallelize-error-returned", ifs.Pos(), returnsErr, true, "a failed job fails FormatBucket (no partially formatted bucket is returned): %v", returnsErr)
+			add(sfb, 2)
+			for f := range parts {
+				for _, call := range callsIn(f) {
+					o := staticCalleeObj(call.Call)
+					if o == nil {
+						continue
+					}
+					which := ""
+					switch {
+					case o.Name() == "FormatFileNode" && o.Pkg() == pk.Types:
+						which = "FormatFileNode"
+					case isFuncNamed(o, "private/pkg/thread", "", "Parallelize"):
+						which = "Parallelize"
+					default:
+						continue
+					}
+					ev, ok := call.Instr.(ssa.Value)
+					if !ok {
+						continue
+					}
+					returned := false
+					for _, r := range returnsOf(f) {
+						if len(r.Results) > 0 && dependsOnValue(spilledResult(r, r.Results[len(r.Results)-1]), ev) {
+							returned = true
+						}
+					}
+					failsOnErr := true
+					if ev.Referrers() != nil {
+						for _, r := range *ev.Referrers() {
+							bo, isCmp := r.(*ssa.BinOp)
+							if !isCmp || !(isNilConst(bo.X) || isNilConst(bo.Y)) || bo.Referrers() == nil {
+								continue
+							}
+							for _, rr := range *bo.Referrers() {
+								if iff, isIf := rr.(*ssa.If); isIf {
+									nonNil := iff.Block().Succs[0]
+									if bo.Op == token.EQL {
+										nonNil = iff.Block().Succs[1]
+									}
+									if !blockAlwaysFails(nonNil, map[*ssa.BasicBlock]bool{}) {
+										failsOnErr = false
+									}
+								}
+							}
+						}
+					}
+					okP := returned && failsOnErr
+					if which == "FormatFileNode" {
+						seenFormat = true
+						c.Ob("ERR-SURFACE", "FormatBucket/FormatFileNode-error-returned", call.Pos(), okP, true, "a formatting error fails the job: %v", okP)
+					} else {
+						seenPar = true
+						c.Ob("ERR-SURFACE", "FormatBucket/Parallelize-error-returned", call.Pos(), okP, true, "a failed job fails FormatBucket (no partially formatted bucket is returned): %v", okP)
+					}
+				}
 			}
-			return true
-		})
+		}
 		if !seenFormat || !seenPar {
 			c.Fail("ERR-SURFACE", "FormatBucket/shape", fb.Decl.Pos(), "FormatBucket no longer has the `if err := FormatFileNode/Parallelize(...); err != nil { return err }` shape (FormatFileNode=%v Parallelize=%v)", seenFormat, seenPar)
 		}
@@ -895,7 +947,26 @@ func c07Header(c *Ctx, pk, pa *packages.Package) {
 		return out
 	}
 	hs, bs := typeSwitchOverDecls(hdr), typeSwitchOverDecls(body)
-	if hs == nil || bs == nil {
+	// the body pass may ask a predicate of the package ("is this a header element?") instead of switching itself:
+	// the kinds for which the predicate returns true are the skipped ones
+	var predSwitch *ast.TypeSwitchStmt
+	if bs == nil {
+		ast.Inspect(body.Decl.Body, func(n ast.Node) bool {
+			call, ok := n.(*ast.CallExpr)
+			if !ok || predSwitch != nil {
+				return true
+			}
+			if fn := Callee(info, call); fn != nil && fn.Pkg() == pk.Types {
+				if sig, ok := fn.Type().(*types.Signature); ok && sig.Results().Len() == 1 && sig.Results().At(0).Type().String() == "bool" {
+					if hd := p.DeclOf(fn); hd != nil && hd.Decl.Body != nil {
+						predSwitch = typeSwitchOverDecls(hd)
+					}
+				}
+			}
+			return true
+		})
+	}
+	if hs == nil || (bs == nil && predSwitch == nil) {
 		c.Fail("HEADER-PARTITION", "switches", token.NoPos, "type switches over the file elements not found")
 		return
 	}
@@ -916,21 +987,38 @@ func c07Header(c *Ctx, pk, pa *packages.Package) {
 	}
 	skipped := map[string]bool{}
 	var dflt *ast.CaseClause
-	for _, st := range bs.Body.List {
-		cc := st.(*ast.CaseClause)
-		if cc.List == nil {
-			dflt = cc
-			continue
-		}
-		skips := false
-		for _, s := range cc.Body {
-			if b, ok := s.(*ast.BranchStmt); ok && b.Tok == token.CONTINUE {
-				skips = true
+	if bs != nil {
+		for _, st := range bs.Body.List {
+			cc := st.(*ast.CaseClause)
+			if cc.List == nil {
+				dflt = cc
+				continue
+			}
+			skips := false
+			for _, s := range cc.Body {
+				if b, ok := s.(*ast.BranchStmt); ok && b.Tok == token.CONTINUE {
+					skips = true
+				}
+			}
+			for _, e := range cc.List {
+				if skips {
+					skipped[namedName(info.TypeOf(e))] = true
+				}
 			}
 		}
-		for _, e := range cc.List {
-			if skips {
-				skipped[namedName(info.TypeOf(e))] = true
+	} else {
+		for _, st := range predSwitch.Body.List {
+			cc := st.(*ast.CaseClause)
+			yes := false
+			for _, s := range cc.Body {
+				if r, ok := s.(*ast.ReturnStmt); ok && len(r.Results) == 1 && exprString(r.Results[0]) == "true" {
+					yes = true
+				}
+			}
+			for _, e := range cc.List {
+				if yes {
+					skipped[namedName(info.TypeOf(e))] = true
+				}
 			}
 		}
 	}
@@ -949,6 +1037,17 @@ func c07Header(c *Ctx, pk, pa *packages.Package) {
 	c.Ob("HEADER-PARTITION", "collected=skipped", hs.Pos(), same && len(cs) >= 3, true,
 		"kinds collected by writeFileHeader {%s} = kinds skipped by writeFileTypes {%s} (a kind skipped but not collected vanishes; collected but not skipped is printed twice)", strings.Join(cs, ","), strings.Join(ss, ","))
 	writes := false
+	if bs == nil {
+		// predicate form: the rest of the loop body writes the element
+		ast.Inspect(body.Decl.Body, func(n ast.Node) bool {
+			if call, ok := n.(*ast.CallExpr); ok {
+				if fn := Callee(info, call); fn != nil && fn.Name() == "writeNode" {
+					writes = true
+				}
+			}
+			return true
+		})
+	}
 	if dflt != nil {
 		for _, s := range dflt.Body {
 			ast.Inspect(s, func(n ast.Node) bool {
@@ -961,7 +1060,7 @@ func c07Header(c *Ctx, pk, pa *packages.Package) {
 			})
 		}
 	}
-	c.Ob("HEADER-PARTITION", "default-writes", bs.Pos(), writes, true, "every other file element kind reaches writeNode in writeFileTypes: %v", writes)
+	c.Ob("HEADER-PARTITION", "default-writes", body.Decl.Pos(), writes, true, "every other file element kind reaches writeNode in writeFileTypes: %v", writes)
 
 	// everything collected is written: the collecting variable is passed to a formatter method, directly or as the
 	// range value of a loop over it
@@ -1007,6 +1106,51 @@ func c07Header(c *Ctx, pk, pa *packages.Package) {
 		if loop == nil {
 			continue
 		}
+		// the same decision written the other way round: the write call sits under `if !dup { write }`
+		ast.Inspect(loop.Body, func(n ast.Node) bool {
+			call, ok := n.(*ast.CallExpr)
+			if !ok || !isFormatterMethodCall(info, call) || !strings.HasPrefix(Callee(info, call).Name(), "write") {
+				return true
+			}
+			passes := false
+			for _, a := range call.Args {
+				if identObj(info, a) == identObj(info, loop.Value) {
+					passes = true
+				}
+			}
+			if !passes {
+				return true
+			}
+			for q := p.Parent(call); q != nil && q != ast.Node(loop); q = p.Parent(q) {
+				ifs, ok := q.(*ast.IfStmt)
+				if !ok || !containsNode(ifs.Body, call) {
+					continue
+				}
+				ue, ok := ast.Unparen(ifs.Cond).(*ast.UnaryExpr)
+				if !ok || ue.Op != token.NOT {
+					continue
+				}
+				conj := splitAnd(resolveLocalCond(info, loop.Body, ue.X))
+				eqPrev, noComment := false, false
+				for _, t := range conj {
+					if be, ok := ast.Unparen(t).(*ast.BinaryExpr); ok && be.Op == token.EQL {
+						l, r := strings.ReplaceAll(exprString(be.X), " ", ""), strings.ReplaceAll(exprString(be.Y), " ", "")
+						if strings.Contains(l, "Name.AsString()") && strings.Contains(r, "Name.AsString()") && (strings.Contains(l, "[i-1]") || strings.Contains(r, "[i-1]")) {
+							eqPrev = true
+						}
+					}
+					if u2, ok := ast.Unparen(t).(*ast.UnaryExpr); ok && u2.Op == token.NOT {
+						if c2, ok := ast.Unparen(u2.X).(*ast.CallExpr); ok {
+							if fn := Callee(info, c2); fn != nil && strings.Contains(fn.Name(), "HasComment") {
+								noComment = true
+							}
+						}
+					}
+				}
+				c.Ob("HEADER-PARTITION", "skip-in-"+name+"-loop", ifs.Pos(), eqPrev && noComment, true, "an element of the header is written unless it is a comment-free duplicate of its predecessor: guard %q: same name as previous=%v, comment-free=%v", short(exprString(ue.X), 80), eqPrev, noComment)
+			}
+			return true
+		})
 		// skips inside the writing loop: each `continue` must be guarded by name equality with the previous element
 		// and by the absence of comments
 		ast.Inspect(loop.Body, func(n ast.Node) bool {
@@ -1024,7 +1168,7 @@ func c07Header(c *Ctx, pk, pa *packages.Package) {
 			okGuard := false
 			why := "unguarded skip"
 			if ifs != nil {
-				conj := splitAnd(ifs.Cond)
+				conj := splitAnd(resolveLocalCond(info, loop.Body, ifs.Cond))
 				eqPrev, noComment := false, false
 				for _, t := range conj {
 					if be, ok := ast.Unparen(t).(*ast.BinaryExpr); ok && be.Op == token.EQL {
@@ -1048,6 +1192,36 @@ func c07Header(c *Ctx, pk, pa *packages.Package) {
 			return true
 		})
 	}
+}
+
+// resolveLocalCond replaces a condition that is just a local boolean by the expression that local was defined with
+// (`dup := a && b; if dup {…}`), looking for the definition inside scope.
+func resolveLocalCond(info *types.Info, scope ast.Node, e ast.Expr) ast.Expr {
+	id, ok := ast.Unparen(e).(*ast.Ident)
+	if !ok {
+		return e
+	}
+	obj := info.Uses[id]
+	if obj == nil {
+		return e
+	}
+	var def ast.Expr
+	n := 0
+	ast.Inspect(scope, func(m ast.Node) bool {
+		if as, ok := m.(*ast.AssignStmt); ok && len(as.Lhs) == len(as.Rhs) {
+			for i, l := range as.Lhs {
+				if lid, ok := l.(*ast.Ident); ok && (info.Defs[lid] == obj || info.Uses[lid] == obj) {
+					def = as.Rhs[i]
+					n++
+				}
+			}
+		}
+		return true
+	})
+	if n == 1 && def != nil {
+		return def
+	}
+	return e
 }
 
 func splitAnd(e ast.Expr) []ast.Expr {
